@@ -1,6 +1,7 @@
 (* C16 — Adjustable context nodes change all-or-nothing and only to admissible values. *)
 From Coq Require Import List ZArith Bool.
 From DC Require Import Grid.Model Adjustable.Model Adjustable.Proofs.
+From DC Require Adjustable.Overflow.
 Import ListNotations.
 Open Scope Z_scope.
 
@@ -36,6 +37,29 @@ Theorem C16_defined_when_cells_exist : forall k is_upd g n vals,
   grid_vals k g = Some vals -> exists r, run_op k is_upd g n = Some r.
 Proof. exact defined_when_cells_exist. Qed.
 
+(* ---- at the edge of the machine type (Adjustable/Overflow.v) --------------------------------------------------------------
+   [adjust] adds with the machine `+` of the element type (i64 in the harness and in the repository's tests): a release build
+   wraps modulo 2^64.  The release model [adjust_w] coincides with the unbounded model above - hence satisfies the whole
+   property - whenever every mathematical sum old + delta fits the type ... *)
+Theorem C16_release_adjust_is_the_model_when_sums_fit : forall k g n,
+  Overflow.sums_fit k g n -> Overflow.adjust_w k g n = adjust k g n.
+Proof. exact Overflow.adjust_w_in_range. Qed.
+
+(* ... and the property FAILS outside that range (finding D11): a data node holding -5, adjusted by -(2^63 - 1), must fail
+   (the adjusted value is negative) but is accepted and ends up holding 2^63 - 4 *)
+Theorem C16_adjust_overflow_refuted :
+  match Overflow.d11_grid with
+  | Some g =>
+      let n := mkNode (-5) 1 1 1 in
+      grid_vals KData g = Some [- 9223372036854775807] /\
+      must_fail KData false (coords KData n) [- 9223372036854775807] = true /\
+      Overflow.adjust_w KData g n = Some (true, mkNode 9223372036854775804 1 1 1)
+  | None => False
+  end.
+Proof. exact Overflow.adjust_overflow_refuted. Qed.
+
+Print Assumptions C16_release_adjust_is_the_model_when_sums_fit.
+Print Assumptions C16_adjust_overflow_refuted.
 Print Assumptions C16_model_satisfies_property.
 Print Assumptions C16_ok_sets_every_coordinate.
 Print Assumptions C16_err_changes_nothing.
